@@ -20,7 +20,7 @@ from ..report import Ctx
 from ..selftest import Mutant
 
 PROP = "C15"
-TECHNIQUE = "static analysis: branch-table analysis of to_hashable (dispatch order, tagging, ordering policy, recursion, identity attributes) with helper inlining + key-construction flow rules at every cache use + hash()/id() stability scan + pre-flattening and identity-memo rules"
+TECHNIQUE = "static analysis: branch-table analysis of to_hashable (dispatch order, tagging, ordering policy, recursion, identity attributes) with helper inlining + key-construction flow rules at every cache use + hash()/id() stability scan + pre-flattening and identity-memo rules + process-independence of key builders and the module constants they use"
 MOD = "pipefunc.cache"
 EXPLANATION = (
     "Static analysis of pipefunc.cache.to_hashable: the isinstance dispatch is read into a branch table "
@@ -438,8 +438,13 @@ def rule_stable(ctx: Ctx) -> None:
             for nm, v in f_.module.assigns.items():
                 if nm not in consts and any(isinstance(x, ast.Name) and x.id == nm for c_ in consts.values() for x in ast.walk(c_)):
                     consts[nm] = v
-    nd = [(nm, c) for nm, v in consts.items() for c in ast.walk(v) if isinstance(c, ast.Call) and NONDET.search(dotted(c.func) or "")]
-    nd += [(f_.name, c) for f_ in funcs for c in ast.walk(f_.node) if isinstance(c, ast.Call) and NONDET.search(dotted(c.func) or "") and dotted(c.func) not in ("id", "hash")]
+    def source(c: ast.Call, mod) -> str:
+        """The called name with import aliases resolved (`import uuid as _u; _u.uuid4()` -> uuid.uuid4)."""
+        nm = dotted(c.func) or ""
+        return ctx.prog.resolve_name(mod, nm, None) if nm else ""
+
+    nd = [(nm, c) for nm, v in consts.items() for c in ast.walk(v) if isinstance(c, ast.Call) and NONDET.search(source(c, fn.module))]
+    nd += [(f_.name, c) for f_ in funcs for c in ast.walk(f_.node) if isinstance(c, ast.Call) and NONDET.search(source(c, f_.module)) and dotted(c.func) not in ("id", "hash")]
     ctx.add("7-stable", fn, nd[0][1] if nd else fn.node, not nd, f"nothing process-dependent (uuid / random / pid / time) in the key builders or the {len(consts)} module constant(s) they use" if not nd else
             f"`{nd[0][0]}` takes part in every converted key and is computed from `{norm(nd[0][1])[:50]}`: it differs from one interpreter to the next, so the same value gets a different key in every process "
             "(a DiskCache directory or a shared cache never hits across processes)", key="process-independent")
@@ -561,6 +566,7 @@ def check(ctx: Ctx) -> None:
 
 F = "pipefunc/cache.py"
 MUTANTS = [
+    Mutant("marker-per-process", "pipefunc/cache.py", "_HASH_MARKER = \"__CONVERTED__\"\n", "import uuid as _uuid\n_HASH_MARKER = f\"__CONVERTED_{_uuid.uuid4().hex}__\"\n", ("C15.7-stable",), why="round-4 seed C15/10"),
     Mutant("ordereddict-branch-removed", F, "    if isinstance(obj, collections.OrderedDict):\n        return (m, tp, _hashable_mapping(obj, fallback_to_pickle))\n", "", ("C15.2-dispatch",), why="round-2 seed C15/4"),
     Mutant("drop-tp-list", F, "        return (m, tp, _hashable_iterable(obj, fallback_to_pickle))\n    if isinstance(obj, collections.deque)",
            "        return (m, _hashable_iterable(obj, fallback_to_pickle))\n    if isinstance(obj, collections.deque)", ("C15.1-tagged",)),
